@@ -370,6 +370,9 @@ Proof.
   - (* Pratt *) eapply (proj1 (pratt_ext _ IH g ops ctx n)); eauto.
   - (* GroupArr *) eapply group_sem_ext; eauto.
   - discriminate.
+  - (* ExtWrap *)
+    destruct (sem n g ctx p a) as [[[[[v1 p1] e1]|] [[q e0]|]]|] eqn:E1; try discriminate;
+      injection H as <- <- <- <-; eapply IH; eauto.
 Qed.
 
 End Extent.
